@@ -29,6 +29,26 @@ CLAIMED = {
                      "stand-in functions; relation oracle on the real code",
         "design": "DESIGN.md section 5, C07",
     },
+    "C04": {
+        "text": "Coq theorems (props/C04.v): for all samples (sizes >= 2, non-zero variance), all 12 option cells and every "
+                "confidence level in (0,1), every field of the regenerated Mean analysis applied to the exact aggregates equals "
+                "an independently written textbook Student/Welch/Z test on the raw observations (lib/Textbook.v); relative "
+                "interval = log-scale delta-method interval for means of equal sign",
+        "note": "trusted: Coq kernel, stdlib real axioms, translator, distribution laws L1-L6 as hypotheses (satisfiable), "
+                "C01 for 'aggregates = exact sample statistics'; floats outside the theorem (oracle tolerance 1e-7)",
+        "technique": "Coq proof: translator-generated model = independent textbook specification; exact differential; "
+                     "scipy reference oracle on the public API",
+        "design": "DESIGN.md section 5, C04",
+    },
+    "C05": {
+        "text": "Coq theorems (props/C05.v): RatioOfMeans on exact aggregates = the textbook test of C04 on the linearised "
+                "observations r_g + (x_i - r_g y_i)/mean_g(y); per-variant mean/variance of the linearised rows = ratio of "
+                "means / ratio_var; denominator of ones or absent = Mean; Mean(value, covariate) = RatioOfMeans(value, None, "
+                "covariate, None) from the generated super().__init__ wiring",
+        "note": "as C04",
+        "technique": "Coq proof over translator-generated model; exact differential; linearised-rows reference oracle",
+        "design": "DESIGN.md section 5, C05",
+    },
 }
 REASONS = {}
 
